@@ -97,7 +97,7 @@ def units(prog: Program, res: Result) -> None:
                 and "factor_matrices" in ast.unparse(n.value.func.value) and n.value.args:
             val = n.value.args[0]
         if val is not None:
-            for s in ast.walk(val):
+            for s in ast.walk(fi.resolve(val)):
                 if isinstance(s, ast.Slice) and s.upper is not None:
                     sl = (s, n)
     if not auto or sl is None:
@@ -148,20 +148,41 @@ def eig(prog: Program, res: Result) -> None:
         else:
             res.ok("EIG", fi.short, desc, prog.loc(fi, verdicts[0][1]), verdicts[0][0][1])
     # cumulative sum over descending eigenvalues, reversed
-    defs = A.single_defs(fi.node)
     desc = "the reverse cumulative sum runs over the eigenvalues in DESCENDING order"
-    if "eigvec" in defs and "pi" in defs:
-        pi = ast.unparse(defs["pi"][0].value)
-        ev = ast.unparse(defs["eigvec"][0].value)
-        ok = "argsort(-D" in pi.replace(" ", "") and ev.replace(" ", "") == "D[pi]"
-        cs = [ast.unparse(a.value).replace(" ", "") for a in defs.get("eigsum", [])]
-        ok2 = any("cumsum(eigvec[::-1])" in c for c in cs) and any(c == "eigsum[::-1]" for c in cs)
-        if ok and ok2:
-            res.ok("EIG", fi.short, desc, prog.loc(fi, defs["pi"][0]), f"pi = {pi}; eigsum = reversed cumsum of reversed {ev}")
-        else:
-            res.bad("EIG", fi.short, desc, prog.loc(fi, defs["pi"][0]), f"pi = {pi}; eigvec = {ev}; eigsum = {cs}")
+    cs_calls = []
+    for a_ in ast.walk(fi.node):
+        if isinstance(a_, ast.Assign):
+            rv = fi.resolve(a_.value)
+            for c in ast.walk(rv):
+                if isinstance(c, ast.Call) and (dotted(c.func) or "").split(".")[-1] == "cumsum" and c.args:
+                    cs_calls.append((a_, rv, c))
+    if not cs_calls:
+        res.undecided("EIG", fi.short, desc, prog.loc(fi), "no cumulative sum found")
     else:
-        res.undecided("EIG", fi.short, desc, prog.loc(fi))
+        a_, rv, c = cs_calls[0]
+        arg = c.args[0]
+        # argument: <vals>[<perm>][::-1] with perm = argsort(-vals)
+        rev_in = isinstance(arg, ast.Subscript) and isinstance(arg.slice, ast.Slice) and arg.slice.step is not None and const(arg.slice.step) == -1
+        inner = arg.value if rev_in else arg
+        desc_sorted = False
+        if isinstance(inner, ast.Subscript) and isinstance(inner.slice, ast.Call) and (dotted(inner.slice.func) or "").split(".")[-1] == "argsort" \
+                and inner.slice.args:
+            key = inner.slice.args[0]
+            desc_sorted = isinstance(key, ast.UnaryOp) and isinstance(key.op, ast.USub) and ast.unparse(key.operand) == ast.unparse(inner.value)
+        # result reversed back: cumsum(..)[::-1] in the same expression, or a later `x = x[::-1]` on the assigned name
+        rev_out = any(isinstance(x, ast.Subscript) and x.value is c and isinstance(x.slice, ast.Slice) and x.slice.step is not None and const(x.slice.step) == -1
+                      for x in ast.walk(rv))
+        if not rev_out and isinstance(a_.targets[0], ast.Name):
+            nm = a_.targets[0].id
+            rev_out = any(isinstance(y, ast.Assign) and isinstance(y.targets[0], ast.Name) and y.targets[0].id == nm
+                          and ast.unparse(y.value).replace(" ", "") == f"{nm}[::-1]" for y in ast.walk(fi.node))
+        where = prog.loc(fi, a_)
+        if rev_in and desc_sorted and rev_out:
+            res.ok("EIG", fi.short, desc, where, f"cumsum over {ast.unparse(arg)[:60]}, reversed back")
+        else:
+            res.bad("EIG", fi.short, desc, where,
+                    f"cumulative sum over `{ast.unparse(arg)[:70]}` (eigenvalues sorted descending: {desc_sorted}; reversed before: {rev_in}; "
+                    f"reversed back: {rev_out})")
 
 
 def fit(prog: Program, res: Result) -> None:
@@ -174,7 +195,9 @@ def fit(prog: Program, res: Result) -> None:
         res.undecided("FIT", fi.short, desc, prog.loc(fi))
         return
     fitdef = [a for a in defs["fit"] if not isinstance(a.value, ast.Constant)]
-    ok, how = A.formula_equals(fitdef[-1].value, roles, 1 - sp.sqrt(sp.Abs(nX**2 - nG**2)) / nX, {"normresidual": defs["normresidual"][-1].value})
+    keep = ("normX", "core", "fit", "normresidual")
+    ok, how = A.formula_equals(fi.resolve(fitdef[-1].value, keep=keep), roles, 1 - sp.sqrt(sp.Abs(nX**2 - nG**2)) / nX,
+                               {"normresidual": fi.resolve(defs["normresidual"][-1].value, keep=keep)})
     where = prog.loc(fi, fitdef[-1])
     if ok is True:
         res.ok("FIT", fi.short, desc, where, how)
